@@ -25,6 +25,7 @@ type C15Case struct {
 	AppHandler string `json:"app_handler"` // the application's own EventLogout handler: none | true | false (its return value)
 	EndStep    int    `json:"end_step"`    // index of the peer Logout / local Logout / Stop step
 	AnswerStep int    `json:"answer_step"` // index of the peer's answering Logout (-1: none)
+	DamagedFirst bool `json:"damaged_first,omitempty"` // peer-logout ending: a damaged Logout precedes the intact one
 	RefuseLogout bool `json:"refuse_logout,omitempty"` // stop ending: an application outgoing handler refuses the Logout, so it never reaches the peer; the deadline still ends the session
 	CounterFails bool `json:"counter_fails,omitempty"` // peer-logout ending: the counter store fails from just before the peer's Logout on; the Logout is answered all the same
 	Probed     bool   `json:"probed"`      // local endings: the peer has been silent long enough for the session to have sent its TestRequest; the local Logout()/Stop() comes while that is unanswered
@@ -77,6 +78,11 @@ func genC15(t *rapid.T) *C15Case {
 			T := int64(tolT(g.hb))
 			add(rig.Step{Op: "advance", Dt: T + T/10 + 1e6})
 			c.AnswerKind = "after-probe"
+		}
+		if c.AnswerKind == "" && rapid.IntRange(0, 3).Draw(t, "damagedFirst") == 0 {
+			// the peer's first Logout arrives damaged (rejected, nothing else happens); it repeats it intact
+			add(rig.Step{Op: "in", In: damage(t, g.logout())})
+			c.DamagedFirst = true
 		}
 		if c.AnswerKind == "" && rapid.IntRange(0, 3).Draw(t, "counterFails") == 0 {
 			c.CounterFails = true
@@ -212,6 +218,9 @@ func checkC15(c *C15Case, rec *evid.Rec) (vs []pbt.Violation) {
 	end := tr.Steps[c.EndStep]
 	if !tr.Steps[c.EndStep-1].Logged && c.EndStep > 0 && c.AnswerKind != "after-probe" && !c.Probed {
 		// the prefix must leave the session logged on
+		if c.DamagedFirst {
+			return []pbt.Violation{pbt.V("damaged-logout-ended-the-session", "a Logout that fails validation (and was rejected) ended the session: IsLogged is false before the peer's intact Logout arrived; the damaged message produced:%s", showOut(tr.Steps[c.EndStep-1]))}
+		}
 		return []pbt.Violation{pbt.V("harness:not-logged", "prefix did not leave the session logged on")}
 	}
 	switch c.Ending {
@@ -294,6 +303,9 @@ func checkC15(c *C15Case, rec *evid.Rec) (vs []pbt.Violation) {
 	if c.RefuseLogout {
 		rec.Hist("stop-whose-logout-is-refused")
 	}
+	if c.DamagedFirst {
+		rec.Hist("damaged-logout-before-the-intact-one")
+	}
 	if c.CounterFails {
 		rec.Hist("peer-logout-while-counter-store-fails")
 	}
@@ -307,4 +319,80 @@ func TestC15(t *testing.T) {
 	outerT = t
 	rec := evid.New("C15")
 	pbt.Run(t, "C15", rec, genC15, checkC15)
+}
+
+// ---- C15, the application logs out from inside its own logon callback ----
+//
+// An application that only wants to check credentials and leave calls
+// Session.Logout() from its EventLogon callback (events are dispatched
+// synchronously on the inbound goroutine). The Logout goes out once, the peer's
+// answer ends the exchange, nothing blocks.
+
+type C15CallbackCase struct {
+	Script
+	AnswerStep int `json:"answer_step"`
+}
+
+func genC15Callback(t *rapid.T) *C15CallbackCase {
+	cfg := genCfg(t, "")
+	cfg.Approve = "all"
+	cfg.HBMin, cfg.HBMax = 40, 60
+	cfg.HBInt = rapid.IntRange(40, 60).Draw(t, "hb15cb")
+	g := &hgen{t: t, cfg: cfg, inSeq: 1}
+	c := &C15CallbackCase{}
+	c.Cfg = cfg
+	c.Steps = append(c.Steps, rig.Step{Op: "in", In: g.goodLogon(0)})
+	for i := rapid.IntRange(0, 2).Draw(t, "between"); i > 0; i-- {
+		c.Steps = append(c.Steps, rig.Step{Op: "in", In: g.heartbeat("")})
+	}
+	c.AnswerStep = len(c.Steps)
+	c.Steps = append(c.Steps, rig.Step{Op: "in", In: g.logout()})
+	c.MaxHB = g.maxHB
+	return c
+}
+
+func checkC15Callback(c *C15CallbackCase, rec *evid.Rec) (vs []pbt.Violation) {
+	hooks := &rig.Hooks{AfterRun: func(h *simplefixgo.DefaultHandler, s *session.Session, log *rig.EventLog) {
+		s.OnChangeState(utils.EventLogon, func() bool {
+			_ = s.Logout()
+			return true
+		})
+	}}
+	tr := rig.RunDirect(outerT, c.Cfg, c.Steps, hooks, c.MaxHB)
+	if tr.Trouble != "" {
+		return []pbt.Violation{pbt.V("harness", "%s", tr.Trouble)}
+	}
+	if tr.RunPanic != "" {
+		return []pbt.Violation{pbt.V("inbound-panic", "handler.Run panicked: %s", tr.RunPanic)}
+	}
+	total := 0
+	for i := range c.Steps {
+		total += logouts(tr.Steps[i].Out)
+	}
+	if n := logouts(tr.Steps[0].Out); n != 1 {
+		vs = append(vs, pbt.V("callback-logout-not-sent", "Logout() called from the application's logon callback must send exactly one Logout, the logon step emitted:%s", showOut(tr.Steps[0])))
+	}
+	if total != 1 && len(vs) == 0 {
+		vs = append(vs, pbt.V("callback-second-logout", "%d Logout messages were sent in a history with one local Logout()", total))
+	}
+	ans := tr.Steps[c.AnswerStep]
+	if ans.Logged && len(vs) == 0 {
+		vs = append(vs, pbt.V("still-logged-after-logout", "IsLogged is true after the peer answered the Logout"))
+	}
+	if n := count(ans.Events, "session:logout"); n != 1 && len(vs) == 0 {
+		vs = append(vs, pbt.V("logout-event-count", "the logout event fired %d times when the peer's answer arrived", n))
+	}
+	rec.Case(evid.FPs(fmt.Sprintf("cb|%s|%d", c.Cfg.Role, len(c.Steps))), true)
+	rec.Hist("logout-from-the-logon-callback")
+	rec.Hist("callback:role:" + c.Cfg.Role)
+	if rec.WantSample() {
+		rec.Sample(map[string]any{"engine": "Logout() from the logon callback", "history": showScript(&c.Script)})
+	}
+	return vs
+}
+
+func TestC15Callback(t *testing.T) {
+	outerT = t
+	rec := evid.New("C15/callback")
+	pbt.Run(t, "C15", rec, genC15Callback, checkC15Callback)
 }
